@@ -665,6 +665,67 @@ func TestC17Interplay(t *testing.T) {
 	col.SetExhaustive(true)
 }
 
+// TestC17WitnessScopes: a stored key counts only when its witness covers the call of the NeoFS contract.
+func TestC17WitnessScopes(t *testing.T) {
+	theT = t
+	col := ev.New("C17", "witness-scopes",
+		"complete enumeration for n=2..4 stored keys x decision kind {setConfig, cheque}: member 0 votes; then member 1 is merely the sender of the transaction (witness scope None) of a stranger's invocation (rejected); member 1 with scope CalledByEntry calls a third-party contract that calls the NeoFS contract (rejected); member 1 pays (scope None) for the vote of the last member (counted for that member only); member 1 itself votes with scope CalledByEntry directly (counted); remaining members vote until the model's threshold; every invocation is judged by the ballot model with the set of keys whose witness really covers the call; non-trivial = every case")
+	defer func() { col.Flush(true) }()
+	nshards, shard := envInt("VERIF_NSHARDS", 1), envInt("VERIF_SHARD_INDEX", 0)
+	idx := 0
+	for n := 2; n <= 4; n++ {
+		for _, kind := range []string{"setConfig", "cheque"} {
+			idx++
+			if idx%nshards != shard {
+				continue
+			}
+			h := ev.NewHistory()
+			h.Op("n=%d kind=%s", n, kind)
+			if !runCase(t, col, h, func() {
+				w := newC17World(n, h)
+				defer w.close()
+				actor := w.c.Deploy(chainkit.Probe("actor", ""), nil)
+				d := w.newDecision(kind)
+				mem := func(i int) neotest.SingleSigner { return w.signerOf(w.m.alphabet[i]) }
+				for i := 0; i < n; i++ {
+					w.c.FundGAS(mem(i).ScriptHash(), 200*gasUnit)
+				}
+				w.c.FundGAS(w.stranger[0].ScriptHash(), 200*gasUnit)
+				direct := chainkit.Script(w.neofs, method(d.kind), d.args...)
+				via := chainkit.Script(actor, "call", w.neofs, method(d.kind), d.args)
+				run := func(who string, script []byte, signers []chainkit.ScopedSigner, covering ...int) {
+					v := voteTx{d: d, witnessd: map[string]bool{}, who: who}
+					for _, i := range covering {
+						v.witnessd[string(w.m.alphabet[i])] = true
+					}
+					v.tx = w.c.PrepareScoped(script, signers)
+					outs := w.c.InvokeBlock(0, v.tx)
+					w.apply(v, outs[0])
+					w.observe("witness scopes")
+				}
+				G, N, E := transaction.Global, transaction.None, transaction.CalledByEntry
+				run("member 0", direct, []chainkit.ScopedSigner{{S: mem(0), Scope: G}}, 0)
+				run("a stranger, member 1 being only the sender of the transaction (scope None)", direct, []chainkit.ScopedSigner{{S: mem(1), Scope: N}, {S: w.stranger[0], Scope: G}})
+				run("member 1 (scope CalledByEntry) through a third-party contract", via, []chainkit.ScopedSigner{{S: mem(1), Scope: E}})
+				if n >= 3 {
+					run(fmt.Sprintf("member %d, member 1 paying the fees (scope None)", n-1), direct, []chainkit.ScopedSigner{{S: mem(1), Scope: N}, {S: mem(n - 1), Scope: G}}, n-1)
+				}
+				run("member 1 (scope CalledByEntry, called directly from the entry script)", direct, []chainkit.ScopedSigner{{S: mem(1), Scope: E}}, 1)
+				for i := 2; i < n-1 && !h.Has("completed:"+kind); i++ {
+					run(fmt.Sprintf("member %d", i), direct, []chainkit.ScopedSigner{{S: mem(i), Scope: G}}, i)
+				}
+				if !h.Has("completed:" + kind) {
+					fail("C17: %s was not completed by all %d stored keys", d.desc, n)
+				}
+				h.NonTrivial()
+			}) {
+				return
+			}
+		}
+	}
+	col.SetExhaustive(true)
+}
+
 // TestC17AlphabetResize: the threshold of an alphabetUpdate is that of the stored list, whatever the size of the proposed one.
 func TestC17AlphabetResize(t *testing.T) {
 	theT = t
